@@ -24,7 +24,19 @@ CLAIMED["C02"] = dict(
    note="Bounds: 3 keys, values 0..8, shapes complete to length 3 (+ seeded third of length 4) quick / complete to 4 + 600 seeded of length 5 thorough. Outside (measured intractable): symbolic keys/epoch beyond tiny shapes, the sync-queue path (C03), the runtime MapOperationQueue (BytesMut), take/drop ordering, Recon-equal-but-different key texts, composition of the two coalescing layers across the byte channel and all task interleavings. std HashMap replaced by an association-list shim under cfg(kani); a flat 3-slot MapOps backing stands in for the std maps.",
    ref="DESIGN.md section 4, C02")
 
-NA = {}
+NA = {
+ "C03": "the sync-queue path of WriteQueues does not finish under CBMC even fully concrete (update+sync+3 pops: time-out at 400 s; same shape without sync: 8 s); the runtime half needs Uplinks (byte channel + promise + BytesMut buffers); no smaller kernel carries the property (DESIGN.md section 4/5)",
+ "C04": "Uplinks/Links/RemoteTracker/WriteTaskState cannot be encoded within reach: constructing Uplinks needs byte_channel + trigger::promise (Kani ICE in the probe), the nested HashMap registries ran out of memory at 40 GB even with concrete shape, and the BytesMut backpressure buffers hit the double-extend pathology measured for C12",
+ "C05": "the property is the order of persist_response before handle_event inside an async select loop, every crash point and restart through tokio tasks; Kani cannot execute the runtime and the only kernel (persist_response) says nothing about order or crashes",
+ "C06": "quantifies over handler programs (trees of boxed HandlerActions) run by the agent's async loop; no data-symbolic kernel carries it, program structure can only be enumerated",
+ "C07": "consumer sessions live in 1300 lines of async select loops over tokio mpsc/timers/FramedRead; the command-relief half is Value/MapBackpressure over BytesMut (clear+put on a used buffer: the pathology measured for C12)",
+ "C08": "on_read/on_event are private async fns over lifecycle futures and tracing, hosted downlinks sit behind the agent HandlerAction machinery; far simpler heap code (C02, C12) is already at CBMC's limit, so no honest bound was in reach",
+ "C09": "Recon parser/printers (nom + core::fmt, ~4 kLoC) are beyond CBMC: even tokens::unescape on a 6-byte string times out at 400 s",
+ "C11": "the only candidate kernel (escape_if_needed / tokens::unescape) times out at 400 s for 1-6 byte strings (char iterators, scan/flatten/collect); routing through RemoteTask/MultiReader needs the tokio runtime",
+ "C14": "SupplyBackpressure / CommandOutput are append-only BytesMut queues: every interesting scenario is two or more appends to one buffer, the exact operation measured not to finish under CBMC (C12)",
+ "C15": "both sides of the law (compare_recon_values/recon_hash vs parse_recognize) are the incremental Recon parser (C09 reason)",
+ "C16": "derive-generated recognisers + Recon parser + MessagePack reader over heap Value trees, quantified over derived types (programs); C06 + C09 reasons",
+}
 
 def main():
     props = [json.loads(l) for l in open('/verif/properties.jsonl')]
